@@ -234,6 +234,9 @@ MESH_EXTRA = {
 }
 
 
+MESH_SIZE_FREE = ('ref0', 'edge', 'child', 'pts')
+
+
 def is_interned(spec):
     return spec[0] in INTERNED
 
@@ -258,6 +261,9 @@ def spec_key(spec):
         return [t, spec[1]] + [spec_key(s) for s in args]
     if t == 'npint':
         return ['int', spec[1]]
+    if t == 'mesh' and spec[1] in MESH_SIZE_FREE:
+        # these values do not depend on the number of elements of the mesh they are taken from: same value
+        return [t, spec[1], spec[2], 0]
     return spec
 
 
@@ -539,6 +545,27 @@ def _hash(v):
     return types.nutils_hash(v).hex()
 
 
+def canonical_keys(pool):
+    '''Identity of the value each spec of the pool denotes.  For values taken from meshes the spec does not determine the value injectively
+    (the references of a refined 1-element line are the references of a 2-element line; the first reference of every line mesh is the same
+    line element): such specs are merged when their plainest builds, alive at the same time, are one object (all of these types are interned).'''
+    keys = [core.canon(spec_key(s)) for s in pool]
+    idx = [i for i, s in enumerate(pool) if s[0] == 'mesh']
+    if len(idx) > 1:
+        vals = {}
+        for i in idx:
+            try:
+                vals[i] = build(pool[i], 0)
+            except Exception:
+                pass
+        for a in idx:
+            for b in idx:
+                if a < b and a in vals and b in vals and vals[a] is vals[b]:
+                    keys[b] = keys[a]
+        del vals
+    return keys
+
+
 def _check_pairs(handles, model):
     '''Invariants over all live handles: (handle id) -> (spec index, value).'''
     byspec = {}
@@ -559,7 +586,7 @@ def _tf_items():
 def run_history(case):
     from nutils import types
     pool = case['pool']
-    keys = [core.canon(spec_key(s)) for s in pool]
+    keys = canonical_keys(pool)
     # pristine phase: model hash of every spec by its plainest route
     model = []
     for s in pool:
@@ -762,7 +789,7 @@ def run_xproc(case):
         return dict(verdict='harness', vclass='xproc-child-failed', detail=p.stderr.decode()[-800:])
     there = json.loads(p.stdout.decode().strip().splitlines()[-1])
     pickled = [row.pop() for row in there]
-    keys = [core.canon(spec_key(s)) for s in pool]
+    keys = canonical_keys(pool)
     log = []
     seen = {}
     # values pickled by the other interpreter, unpickled here: same hash, and the same object as a live local one if interned
